@@ -150,9 +150,11 @@ impl FixtureDatabase {
                     .collect();
                 elements.join(", ")
             }
-            Expr::Constant(constant) => {
-                format!("{:?}", constant.value)
-            }
+            Expr::Constant(constant) => match &constant.value {
+                // A string annotation is a forward reference: show the type it names
+                rustpython_parser::ast::Constant::Str(s) => s.to_string(),
+                other => format!("{:?}", other),
+            },
             Expr::BinOp(binop) if matches!(binop.op, rustpython_parser::ast::Operator::BitOr) => {
                 format!(
                     "{} | {}",
